@@ -188,20 +188,23 @@ def lock_release(ctx):
     R = BMRoles(ctx, ob)
     if not R.ok:
         return
-    v = R.v
-    fifos = [o for o in v.d.objs if o.cls == "SyncFIFO"]
-    bufs = [o for o in v.d.objs if o.cls == "Buffer"]
-    lk = v.single_comb_def(Sym(key(R.req) + ".lock"))
-    ks = litset(disj(lk)) if lk is not None else set()
-    allowed = {str(fifos[0]) + ".source.valid", str(bufs[0]) + ".source.valid", str(fifos[0]) + ".level"} if fifos and bufs else set()
-    ob.instance("bank lock", sorted(ks))
-    both = {str(fifos[0]) + ".source.valid", str(bufs[0]) + ".source.valid"} if fifos and bufs else set()
-    if both and not both <= ks:
-        ob.refute("lock-gap", "req.lock is %s: it does not cover both queue stages' valid (%s), so it can drop while a command is still queued; the arbiter then "
-                  "re-arbitrates and the queued command's data strobe goes to another port - the accepted command never gets its data" % (sorted(ks), sorted(both)), None)
-    if not ks or not ks <= allowed:
-        ob.refute("lock-extra", "req.lock depends on %s: it may stay high after the queue has drained, locking the master out of other banks" %
-                  sorted(ks - allowed), None)
+    from .c01 import lock_analysis
+    LA = lock_analysis(R)
+    if not ob.need(LA["ok"], "bank machine: req.lock definition or the two queue stages not found"):
+        return
+    f_valid, b_valid, f_level = LA["names"]
+    ob.instance("bank lock", {"term": key(LA["term"])[:200], "queue stages covered": sorted(LA["stages"]), "fifo level term": LA["level"],
+                              "occupancy counter": LA["occupancy"], "other disjuncts": LA["unknown"]})
+    covered = LA["occupancy"] is not None or LA["stages"] == {f_valid, b_valid}
+    if LA["foreign"]:
+        ob.refute("lock-extra", "req.lock depends on %s, which is not an occupancy of the request queue: it may stay high after the queue has drained, locking the master out of "
+                  "other banks" % sorted(LA["foreign"]), None)
+    if LA["unknown"]:
+        ob.unknown("req.lock has counter-like disjuncts this rule cannot classify (%s): whether it falls when the queue drains is not decided" % LA["unknown"])
+    elif not covered:
+        ob.refute("lock-gap", "req.lock is %s: it does not cover both queue stages' valid (%s, %s) and is not an occupancy counter, so it can drop while a command is still queued; "
+                  "the arbiter then re-arbitrates and the queued command's data strobe goes to another port - the accepted command never gets its data" %
+                  (key(LA["term"])[:160], f_valid, b_valid), None)
 
 
 def gate_triggers(ctx):
